@@ -126,7 +126,7 @@ func LocusSep(p *core.Prog, r *core.Report) {
 		switch {
 		case k+1 == len(ms) && lit == "":
 			// last field
-		case lit != "" && (lit[0] == ' ' || lit[0] == '\t'):
+		case lit != "" && (lit[0] == ' ' || lit[0] == '\t' || lit[0] == '\n' || lit[0] == '\r'):
 			// separated by a literal blank
 		case lit == "":
 			w, err := strconv.Atoi(width)
